@@ -125,6 +125,57 @@ def run(ctx, idx):
                 ok = dropped == {"NewFieldName", "OutFileName"} and keeps_others
                 why = "arguments kept in order by an explicit loop, dropping exactly %s" % sorted(dropped or [])
     ctx.ob("C16.b", "%s::arguments" % fi.key, utils.rel, ctor.lineno, ok, why if ok else "converted arguments are not `old arguments minus {NewFieldName, OutFileName}` in order: %s" % why)
+    # the conversion refuses a command only when none of the three name sources exists
+    loop = next(n for n in own_nodes(fi.node) if isinstance(n, ast.For) and any(ctor is x for x in ast.walk(n)))
+    par = {}
+    for n in ast.walk(loop):
+        for c in ast.iter_child_nodes(n):
+            par[id(c)] = n
+    for rz in [n for n in ast.walk(loop) if isinstance(n, ast.Raise)]:
+        p_ = rz
+        guard = None
+        in_handler = False
+        while id(p_) in par:
+            q = par[id(p_)]
+            if isinstance(q, ast.ExceptHandler):
+                in_handler = True
+                break
+            if isinstance(q, ast.If) and any(p_ is b for b in q.body):
+                guard = q.test
+                break
+            p_ = q
+        con = "%s::refusal" % fi.key
+        if in_handler:
+            ctx.hold("C16.b", con, utils.rel, rz.lineno, "raised only from the handler around the construction", nontrivial=False)
+            continue
+        if guard is None:
+            ctx.violate("C16.b", con, utils.rel, rz.lineno, "the conversion raises unconditionally inside its loop")
+            continue
+        absent = set()
+        conj = guard.values if isinstance(guard, ast.BoolOp) and isinstance(guard.op, ast.And) else [guard]
+        for t in conj:
+            t = K.expand(fi, t)
+            inner = None
+            if isinstance(t, ast.UnaryOp) and isinstance(t.op, ast.Not):
+                inner = t.operand
+            elif isinstance(t, ast.Compare) and len(t.ops) == 1 and isinstance(t.ops[0], ast.Is) and isinstance(t.comparators[0], ast.Constant) and t.comparators[0].value is None:
+                inner = t.left
+            if inner is None:
+                continue
+            if is_node_attr(inner, "result_name"):
+                absent.add("own result name")
+            elif find_arg(inner):
+                absent.add(find_arg(inner))
+            elif isinstance(inner, ast.BoolOp) and isinstance(inner.op, ast.Or):
+                for v in inner.values:
+                    if is_node_attr(v, "result_name"):
+                        absent.add("own result name")
+                    elif find_arg(v):
+                        absent.add(find_arg(v))
+        need = {"own result name", "NewFieldName", "InFieldName"}
+        ok = need <= absent
+        ctx.ob("C16.b", con, utils.rel, rz.lineno, ok, "a command is refused only when it has no result name, no NewFieldName and no InFieldName" if ok else
+               "the conversion refuses a command under `%s` without looking at %s: an EEMS 2.0 command named by that source alone (e.g. OR/AND/SUM with InFieldNames and a NewFieldName) no longer converts" % (K.src(guard)[:70], ", ".join(sorted(need - absent))))
     e = args.get("lineno")
     ok = is_node_attr(e, "lineno")
     ctx.ob("C16.b", "%s::line" % fi.key, utils.rel, ctor.lineno, ok, "line = old line" if ok else "the converted node's line is `%s`" % K.src(e))
@@ -161,6 +212,19 @@ def run(ctx, idx):
         else:
             why = "guard `%s` lacks one of the two detection clauses" % K.src(guard)
         ctx.ob("C16.c", con, K.rel(fs), conv[0].line, ok, why)
+        # once triggered, the whole file is converted: named (MPilot-style) commands in a mixed file are renamed and lose their EEMS 2.0-only arguments too
+        call = conv[0].ast
+        a0 = K.expand(fs, call.args[0]) if call.args else None
+        whole = isinstance(a0, ast.Attribute) and a0.attr == "commands"
+        nested = False
+        for n in own_nodes(fs.node):
+            if isinstance(n, (ast.ListComp, ast.GeneratorExp, ast.IfExp, ast.For)) and any(call is x for x in ast.walk(n)):
+                if isinstance(n, ast.For) and not any(call is x for st in n.body for x in ast.walk(st)):
+                    continue
+                nested = True
+        okw = whole and not nested
+        ctx.ob("C16.c", "%s::whole-file" % fs.key, K.rel(fs), call.lineno, okw, "every command of a detected EEMS 2.0 file goes through the conversion" if okw else
+               "the conversion is applied to `%s`%s, not to the whole command list: in a mixed file the commands skipped keep their EEMS 2.0 names and arguments (CommandDoesNotExist, or an OutFileName that should have been dropped)" % (K.src(call.args[0]) if call.args else "nothing", " per command under a condition" if nested else ""))
         # converted nodes replace the parsed ones before the loading loop
         loops = [h for h in cfg.find("iter") if not h.meta.get("comp")]
         ok2 = all(cfg.dominates(conv[0], h) or not cfg.reachable(conv[0]).__contains__(h) for h in loops if h.line and h.line > conv[0].line)
